@@ -134,6 +134,10 @@ def run(ctx):
                                               month_noobs=("2021-04-01", 30, False), part_year=("2021-03-01", 120, True)).items():
             f = synth_hourly(days=365, seed=9).loc[start:].iloc[:24 * days]
             out[label] = HourlyReportingData(f if obs else f[["temperature"]], is_electricity_data=True)
+        # a reporting set that carries irradiance although the model was fitted without it (predict notes the mismatch)
+        g = synth_hourly(days=365, seed=9).loc["2021-07-19":].iloc[:24 * 7].copy()
+        g["ghi"] = np.maximum(0.0, 600.0 * np.sin((np.arange(len(g)) % 24 - 6) / 12 * np.pi))
+        out["july_week_with_ghi"] = HourlyReportingData(g, is_electricity_data=True)
         return out
 
     # ------------------------------------------------------------------ histories
@@ -151,12 +155,23 @@ def run(ctx):
                  lambda: quiet(DailyModel, settings={"weekday_weekend": {"friday": "weekend"}}),
                  lambda: quiet(BillingModel)]
     n_hist = int((3 if not thorough else 40) * scale)
+
+    def lists_of(obj):
+        """the data object's own warning / disqualification lists (names, in order)"""
+        return ([getattr(w, "qualified_name", str(w)) for w in getattr(obj, "warnings", [])],
+                [getattr(w, "qualified_name", str(w)) for w in getattr(obj, "disqualification", [])])
+
+    base_obj = dict(daily=daily_b, billing=bill_b, hourly=hour_b)
     for fam, mkfit, cls, sets, kw in families:
+        base_lists0 = lists_of(base_obj[fam])
         try:
             model = mkfit()
         except Exception as e:  # noqa
             fail("fit_failed", family=fam, error=f"{type(e).__name__}: {str(e)[:100]}")
             continue
+        if lists_of(base_obj[fam]) != base_lists0:
+            fail("fit_modified_data_object_lists", family=fam, before=base_lists0, after=lists_of(base_obj[fam]))
+        set_lists0 = {k: lists_of(rd) for k, rd in sets.items()}
         doc0 = doc_of(model)
         js0 = quiet(model.to_json)
         fresh = {k: quiet(cls.from_json(js0).predict, rd, **kw) for k, rd in sets.items()}      # predict(A) on a fresh copy
@@ -167,6 +182,8 @@ def run(ctx):
             hist = [rng.choice(keys) for _ in range(rng.randint(2, 6))]
             if fam == "hourly" and hno == 0:
                 hist = ["july_week", "january_week", "day"]          # the order named in the property's text
+            if fam == "hourly" and hno == 1:
+                hist = ["july_week_with_ghi", "july_week", "july_week_with_ghi"]
             trace = []
             for step, k in enumerate(hist):
                 if rng.random() < 0.35:
@@ -193,6 +210,11 @@ def run(ctx):
                     break
                 if not frame_unchanged(df_snaps[k], sets[k]._df):
                     fail("predict_modified_data_object", family=fam, history=trace, dataset=k)
+                    break
+                if lists_of(sets[k]) != set_lists0[k] or lists_of(base_obj[fam]) != base_lists0:
+                    fail("predict_modified_data_object_lists", family=fam, history=trace, dataset=k,
+                         reporting_object=dict(before=set_lists0[k], after=lists_of(sets[k])),
+                         baseline_object=dict(before=base_lists0, after=lists_of(base_obj[fam])))
                     break
                 # the frame handed out by predict is independent of the data object
                 if len(out):
@@ -221,6 +243,30 @@ def run(ctx):
             fail("serialised_model_changed_by_fitting_another_meter", family="daily",
                  differing=[k for k in docA if not same_document(docA[k], d.get(k))][:4], detail=json.dumps(d.get("info", {}).get("error"))[:200])
         sigs.add(("interleaved_fit",))
+
+    # ------------------------------------------------------------------ a POOR fit: the fit's own verdict belongs to the model, not to the data object
+    from opendsm.eemeter.common.exceptions import DataSufficiencyError
+    rng_pf = np.random.default_rng(202 + ctx["seed"])
+    poor = synth_daily(seed=5).copy()
+    poor["observed"] = np.abs(rng_pf.normal(10, 60, len(poor))) ** 2 + 0.1            # heavy-tailed, unrelated to the weather
+    try:
+        pdata = DailyBaselineData(poor, is_electricity_data=True)
+        l0 = lists_of(pdata)
+        mp = quiet(DailyModel().fit, pdata, ignore_disqualification=True)
+        res["evaluations"] += 1
+        res["hist"]["poor_fit_model_disqualification"] = lists_of(mp)[1]
+        if lists_of(pdata) != l0:
+            fail("fit_modified_data_object_lists", family="daily", input="heavy-tailed usage unrelated to the weather (poor fit)",
+                 before=l0, after=lists_of(pdata))
+        if not l0[1]:
+            try:
+                quiet(DailyModel().fit, pdata)                                          # the same, still qualified, data object once more
+            except DataSufficiencyError:
+                fail("second_fit_on_the_same_data_object_refused", family="daily", input="heavy-tailed usage unrelated to the weather (poor fit)",
+                     data_disqualification_before_first_fit=l0[1], after=lists_of(pdata)[1])
+        sigs.add(("poor_fit_lists",))
+    except Exception as e:  # noqa
+        res["hist"]["poor_fit_unavailable:" + type(e).__name__] = 1
 
     # ------------------------------------------------------------------ T2: the cluster-table model against the real hourly predict state
     lines, expect = [], []
